@@ -339,7 +339,8 @@ Inductive c09_case :=
 | ProxyCase (a b : cmethod) (same_conn : bool)
 | ShareDialCase (e : dial_err) (waiters dials : nat) (owner_ok : bool) (waiters_ok : list bool)
 | H3ReplayCase (steps : list (h3op * h3obs))
-| H2ReqHdrCase (peer_max : nat) (obs : list (list nat * bool)).
+| H2ReqHdrCase (peer_max : nat) (obs : list (list nat * bool))
+| GoAwayCase (open lasts : list nat) (on_first elsewhere : nat).
 
 Definition c09_check (c : c09_case) : bool :=
   match c with
@@ -357,4 +358,5 @@ Definition c09_check (c : c09_case) : bool :=
   | ShareDialCase e nw d o ws => share_dial_ok e nw d o ws
   | H3ReplayCase steps => h3_replay h3_init steps
   | H2ReqHdrCase pm obs => reqhdr_replay pm hsend_init obs
+  | GoAwayCase open lasts a b => goaway_case_ok open lasts a b
   end.
